@@ -864,6 +864,24 @@ def thread_jumps(blocks):
     changed = 0
     for b in blocks:
         t = b["term"]
+        if t and t["k"] == "switch" and not b.get("cleanup") and t.get("op_ty") == "bool":
+            # a switch on a flag that this very block sets to a constant (left by switch splitting)
+            pl = operand_place(t["op"])
+            if pl is not None and not pl["p"]:
+                val = None
+                for s in b["stmts"]:
+                    if s["k"] == "assign" and s["lhs"]["l"] == pl["l"] and not s["lhs"]["p"]:
+                        rv = s["rv"]
+                        k = rv["op"].get("k") if rv["k"] == "use" else None
+                        val = k["int"] if isinstance(k, dict) and k.get("ty") == "bool" and "int" in k else None
+                if val is not None:
+                    tgt = t["otherwise"]
+                    for v, tg in zip(t["vals"], t["targets"]):
+                        if v == val:
+                            tgt = tg
+                    b["term"] = {"k": "goto", "t": tgt, "span": t.get("span"), "folded": True}
+                    changed += 1
+            continue
         if not t or t["k"] != "goto" or b.get("cleanup"):
             continue
         # what B knows: local -> variant index / bool
@@ -991,13 +1009,29 @@ def split_switch_joins(blocks, locals_):
                 preds.setdefault(x, []).append(-1)
     for si, s in enumerate(blocks):
         st = s["term"]
-        if not st or st["k"] != "switch" or s.get("cleanup") or any(x["k"] == "assign" for x in s["stmts"]):
+        if not st or st["k"] != "switch" or s.get("cleanup"):
             continue
         pl = operand_place(st["op"])
         if pl is None or pl["p"] or st.get("op_ty") != "bool":
             continue
         x = pl["l"]
-        if locals_[x].get("user") or _uses_of(blocks, x) != 1:
+        # S may first copy the flag (`_51 = _37; switch _51`): find the local the predecessors write
+        s_assigns = [a for a in s["stmts"] if a["k"] == "assign"]
+        chain_ok = True
+        copies = []
+        cur = x
+        for a in reversed(s_assigns):
+            if a["lhs"]["l"] == cur and not a["lhs"]["p"] and a["rv"]["k"] == "use" and operand_place(a["rv"]["op"]) and not operand_place(a["rv"]["op"])["p"]:
+                if _uses_of(blocks, cur) != 1:
+                    chain_ok = False
+                copies.append(a)
+                cur = operand_place(a["rv"]["op"])["l"]
+            else:
+                chain_ok = False
+        if not chain_ok or len(copies) != len(s_assigns):
+            continue
+        x = cur
+        if _uses_of(blocks, x) != 1:        # (a named `let ok = a && b;` used once is split like a temporary)
             continue
         # direct predecessors, or through one pure copy block
         routes = []       # (pred block index, [copy stmts on the way])
@@ -1011,7 +1045,7 @@ def split_switch_joins(blocks, locals_):
             if len(assigns) == 1 and assigns[0]["lhs"]["l"] == x and assigns[0]["rv"]["k"] == "use" and operand_place(assigns[0]["rv"]["op"]) \
                     and not operand_place(assigns[0]["rv"]["op"])["p"] and all(q >= 0 for q in preds.get(p, [])) and len(preds.get(p, [])) > 1:
                 y = operand_place(assigns[0]["rv"]["op"])["l"]
-                if locals_[y].get("user") or _uses_of(blocks, y) != 1:
+                if _uses_of(blocks, y) != 1:
                     ok = False
                     break
                 for q in preds.get(p, []):
